@@ -75,13 +75,16 @@ Section Run.
        m_w := {| w_heap := h; w_pcg := pcg0; w_st := st0; w_chain := [{| c_attrs := attrs; c_ops := v_ops j |}] |} |}.
 
   (* m reaches m' in some number of instructions, whatever fuel is left *)
-  Definition steps (m m' : machine) : Prop := exists n, forall fuel, exec (n + fuel) E m = exec fuel E m'.
+  (* (at least one unit of fuel is left afterwards: a program always ends with `halt`, and the fuel left is
+     also the recursion fuel of structural equality inside one instruction) *)
+  Definition steps (m m' : machine) : Prop := exists n, forall fuel, exec (n + S fuel) E m = exec (S fuel) E m'.
   Lemma steps_refl : forall m, steps m m.
   Proof. intros; exists 0%nat; reflexivity. Qed.
   Lemma steps_trans : forall a b c, steps a b -> steps b c -> steps a c.
   Proof.
     intros a b c [n1 H1] [n2 H2]. exists (n1 + n2)%nat. intros fuel.
-    rewrite <- Nat.add_assoc, H1, H2. reflexivity.
+    replace (n1 + n2 + S fuel)%nat with (n1 + S (n2 + fuel))%nat by lia. rewrite H1.
+    replace (S (n2 + fuel)) with (n2 + S fuel)%nat by lia. apply H2.
   Qed.
 
   Definition counted (j : vol) : vol :=
@@ -121,26 +124,27 @@ Section Run.
   Proof. intros; apply Z.leb_gt; unfold stack_size; lia. Qed.
 
   Ltac simp_m :=
-    cbv beta iota;
-    cbn [m_fr m_w mk fr_set_stack fr_set_pc fr_set_blocks fr_set_details fr_set_err fr_code fr_pc fr_live fr_dead fr_top
+    cbv beta iota delta [mk fr_set_stack fr_set_pc fr_set_blocks fr_set_details fr_set_err w_set_heap jump];
+    cbn [m_fr m_w fr_code fr_pc fr_live fr_dead fr_top
          fr_last fr_blocks fr_fblocks fr_dice fr_wod fr_dc fr_details fr_src fr_err w_heap w_pcg w_st w_chain tl
          v_dead v_last v_details v_ops].
 
   Ltac one_step Hpc Hn Htop :=
-    exists 1%nat; intros fuel; change (1 + fuel)%nat with (S fuel);
-    rewrite (exec_S fuel _ _ _ _ _ _ Hpc Hn Htop).
+    exists 1%nat; intros fuel; change (1 + S fuel)%nat with (S (S fuel));
+    rewrite (exec_S (S fuel) _ _ _ _ _ _ Hpc Hn Htop).
 
   Ltac eq_m := unfold M; simp_m; rewrite ?zlen_cons; repeat f_equal; try lia.
 
   (* m fails with class c, leaving the variables vars *)
   Definition vars_of_m (m : machine) : vmap := get_map (c_attrs (w_self (m_w m))) (w_heap (m_w m)).
   Definition fails (m : machine) (c : eclass) (vars : vmap) : Prop :=
-    exists n, forall fuel, exists m', exec (n + S fuel) E m = Fail c m' /\ vars_of_m m' = vars.
+    exists n, forall fuel, exists m', exec (n + S (S fuel)) E m = Fail c m' /\ vars_of_m m' = vars.
   Lemma steps_fails : forall a b c vars, steps a b -> fails b c vars -> fails a c vars.
   Proof.
     intros a b c vars [n1 H1] [n2 H2]. exists (n1 + n2)%nat. intros fuel.
     destruct (H2 fuel) as [m' [Hm Hv]]. exists m'. split; [|exact Hv].
-    rewrite <- Nat.add_assoc, H1. exact Hm.
+    replace (n1 + n2 + S (S fuel))%nat with (n1 + S (n2 + S fuel))%nat by lia. rewrite H1.
+    replace (S (n2 + S fuel)) with (n2 + S (S fuel))%nat by lia. exact Hm.
   Qed.
 
   (* ---- pushes *)
@@ -232,14 +236,878 @@ Section Run.
         simp_m; unfold do_push, push; simp_m; rewrite zlen_cons;
         (replace (stack_size <=? zlen live + 1 - 1) with false by (symmetry; apply Z.leb_gt; unfold stack_size; lia));
         eq_m.
-      Show.
     - exists 0%nat. intros fuel. eexists. split.
-      + change (0 + S fuel)%nat with (S fuel). rewrite (exec_S fuel _ _ _ _ _ _ Hpc Hn Hne).
+      + change (0 + S (S fuel))%nat with (S (S fuel)). rewrite (exec_S (S fuel) _ _ _ _ _ _ Hpc Hn Hne).
         destruct o; cbn [un_opcode step i_op i_arg M m_fr m_w with_pop pop fr_live]; reflexivity.
       + reflexivity.
     - exists 0%nat. intros fuel. eexists. split.
-      + change (0 + S fuel)%nat with (S fuel). rewrite (exec_S fuel _ _ _ _ _ _ Hpc Hn Hne).
+      + change (0 + S (S fuel))%nat with (S (S fuel)). rewrite (exec_S (S fuel) _ _ _ _ _ _ Hpc Hn Hne).
         destruct o; cbn [un_opcode step i_op i_arg M m_fr m_w with_pop pop fr_live]; reflexivity.
       + reflexivity.
   Qed.
+
+  (* ---- binary operators: the VM's operator table against the documented rule (bin_sem), on scalars *)
+  Lemma value_equal_scalar : forall r fn h a b, scalar a -> scalar b ->
+    value_equal (S r) fn h (inj a) (inj b) = Some (dv_eqb a b).
+  Proof. intros r fn h a b Ha Hb; destruct a, b; try contradiction; reflexivity. Qed.
+
+  Lemma bin_op_spec : forall r o a b w, scalar a -> scalar b -> o <> BAnd ->
+    match bin_sem (e_cfg E) o a b with
+    | BV v => bin_op (S r) E (bin_opcode o) (inj a) (inj b) w = ROk (inj v) w /\ scalar v
+    | BE c => bin_op (S r) E (bin_opcode o) (inj a) (inj b) w = RFail c w
+    | BU _ => True
+    end.
+  Proof.
+    intros r o a b w Ha Hb Ho.
+    destruct o; try congruence;
+      try (destruct a, b; try contradiction; cbn; try (split; [reflexivity|exact Logic.I]); try reflexivity; fail).
+    - (* div *)
+      destruct a, b; try contradiction; cbn; try reflexivity.
+      destruct (z0 =? 0); [destruct (cfg_ignore_div0 (e_cfg E))|]; cbn; try (split; [reflexivity|exact Logic.I]); reflexivity.
+    - (* mod *)
+      destruct a, b; try contradiction; cbn; try reflexivity.
+      destruct (z0 =? 0); cbn; try (split; [reflexivity|exact Logic.I]); reflexivity.
+    - (* pow *)
+      destruct a, b; try contradiction; cbn; try reflexivity.
+      destruct (int_pow z z0); cbn; [split; [reflexivity|exact Logic.I]|exact Logic.I].
+  Qed.
+
+  Lemma step_bin_shape : forall call f o m, o <> BAnd ->
+    step call f E (I (bin_opcode o) ONil) m =
+    with_pop2 (m_fr m) (fun v1 v2 fr1 =>
+      match bin_op f E (bin_opcode o) v1 v2 (m_w m), fr_err fr1 with
+      | RFail EType w1, Some e => SFail e (mk fr1 w1)
+      | r, _ => lift r fr1 (fun v w1 => do_push v fr1 w1)
+      end).
+  Proof. intros call f o m Ho; destruct o; try congruence; reflexivity. Qed.
+
+  Lemma step_binop : forall pc a b live blocks h j o,
+    scalar a -> scalar b -> o <> BAnd ->
+    0 <= pc -> nth_error prog (Z.to_nat pc) = Some (I (bin_opcode o) ONil) -> zlen (inj b :: inj a :: live) < 1000 ->
+    match bin_sem (e_cfg E) o a b with
+    | BV v => exists j', steps (M pc (inj b :: inj a :: live) blocks h j) (M (pc + 1) (inj v :: live) blocks h j') /\ scalar v
+    | BE c => fails (M pc (inj b :: inj a :: live) blocks h j) c (get_map attrs h)
+    | BU _ => True
+    end.
+  Proof.
+    intros pc a b live blocks h j o Ha Hb Ho Hpc Hn Htop.
+    assert (Hne : zlen (inj b :: inj a :: live) <> stack_size) by (unfold stack_size; lia).
+    assert (Hl : zlen live < 998) by (rewrite !zlen_cons in Htop; lia).
+    destruct (bin_sem (e_cfg E) o a b) as [v|c|why] eqn:Es; [| |exact Logic.I].
+    - exists {| v_dead := inj b :: v_dead j; v_last := LSlot (zlen live + 1 + 1 - 1 - 1); v_details := v_details j; v_ops := v_ops (counted j) |}.
+      assert (Hsp : forall r w, bin_op (S r) E (bin_opcode o) (inj a) (inj b) w = ROk (inj v) w /\ scalar v).
+      { intros r w. pose proof (bin_op_spec r o a b w Ha Hb Ho) as X. rewrite Es in X. exact X. }
+      split; [|exact (proj2 (Hsp 0%nat (m_w (M pc live blocks h j))))].
+      one_step Hpc Hn Hne. rewrite (step_bin_shape _ _ o _ Ho).
+      cbn [M m_fr m_w with_pop2 with_pop pop fr_live]. simp_m. cbn [with_pop pop fr_live]. simp_m.
+      rewrite (proj1 (Hsp fuel _)). unfold lift, check_err. simp_m. unfold do_push, push. simp_m. rewrite !zlen_cons.
+      (replace (stack_size <=? zlen live + 1 + 1 - 1 - 1) with false by (symmetry; apply Z.leb_gt; unfold stack_size; lia)).
+      eq_m.
+    - assert (Hsp : forall r w, bin_op (S r) E (bin_opcode o) (inj a) (inj b) w = RFail c w).
+      { intros r w. pose proof (bin_op_spec r o a b w Ha Hb Ho) as X. rewrite Es in X. exact X. }
+      exists 0%nat. intros fuel. eexists. split.
+      + change (0 + S (S fuel))%nat with (S (S fuel)).
+        rewrite (exec_S (S fuel) _ _ _ _ _ _ Hpc Hn Hne). rewrite (step_bin_shape _ _ o _ Ho).
+        cbn [M m_fr m_w with_pop2 with_pop pop fr_live]. simp_m. cbn [with_pop pop fr_live]. simp_m.
+        rewrite (Hsp fuel _). destruct c; reflexivity.
+      + reflexivity.
+  Qed.
+
+  (* ---- && : plain binary instruction, both operands already evaluated *)
+  Lemma step_and : forall pc a b live blocks h j,
+    scalar a -> scalar b ->
+    0 <= pc -> nth_error prog (Z.to_nat pc) = Some (I OpAnd ONil) -> zlen (inj b :: inj a :: live) < 1000 ->
+    exists j', steps (M pc (inj b :: inj a :: live) blocks h j)
+                     (M (pc + 1) (inj (if truthy a then b else a) :: live) blocks h j').
+  Proof.
+    intros pc a b live blocks h j Ha Hb Hpc Hn Htop.
+    assert (Hne : zlen (inj b :: inj a :: live) <> stack_size) by (unfold stack_size; lia).
+    assert (Hl : zlen live < 998) by (rewrite !zlen_cons in Htop; lia).
+    exists {| v_dead := inj b :: v_dead j; v_last := LSlot (zlen live + 1 + 1 - 1 - 1); v_details := v_details j; v_ops := v_ops (counted j) |}.
+    one_step Hpc Hn Hne.
+    cbn [step i_op i_arg M m_fr m_w with_pop2 with_pop pop fr_live]. simp_m. cbn [with_pop pop fr_live]. simp_m.
+    rewrite (as_bool_inj _ _ a Ha). unfold do_push, push. simp_m. rewrite !zlen_cons.
+    (replace (stack_size <=? zlen live + 1 + 1 - 1 - 1) with false by (symmetry; apply Z.leb_gt; unfold stack_size; lia)).
+    destruct (truthy a); eq_m.
+  Qed.
+
+  (* ---- jumps *)
+  Lemma step_jmp : forall pc live blocks h j off,
+    0 <= pc -> nth_error prog (Z.to_nat pc) = Some (I OpJmp (OInt off)) -> zlen live < 1000 ->
+    steps (M pc live blocks h j) (M (pc + off + 1) live blocks h (counted j)).
+  Proof.
+    intros pc live blocks h j off Hpc Hn Htop.
+    assert (Hne : zlen live <> stack_size) by (unfold stack_size; lia).
+    one_step Hpc Hn Hne. cbn [step i_op i_arg M m_fr m_w arg_int]. eq_m.
+  Qed.
+
+  Definition popped (v : value) (n : Z) (j : vol) : vol :=
+    {| v_dead := v :: v_dead j; v_last := LSlot n; v_details := v_details j; v_ops := v_ops (counted j) |}.
+
+  Lemma step_jne : forall pc a live blocks h j off,
+    scalar a -> 0 <= pc -> nth_error prog (Z.to_nat pc) = Some (I OpJne (OInt off)) -> zlen (inj a :: live) < 1000 ->
+    steps (M pc (inj a :: live) blocks h j)
+          (M (if truthy a then pc + 1 else pc + off + 1) live blocks h (popped (inj a) (zlen live) j)).
+  Proof.
+    intros pc a live blocks h j off Ha Hpc Hn Htop.
+    assert (Hne : zlen (inj a :: live) <> stack_size) by (unfold stack_size; lia).
+    one_step Hpc Hn Hne.
+    cbn [step i_op i_arg M m_fr m_w with_pop pop fr_live arg_int]. simp_m.
+    rewrite (as_bool_inj _ _ a Ha). unfold popped. destruct (truthy a); eq_m.
+  Qed.
+
+  (* `je.dup k` on a truthy top: the value stays, k instructions are skipped *)
+  Lemma step_jedup_true : forall pc a live blocks h j off,
+    scalar a -> truthy a = true ->
+    0 <= pc -> nth_error prog (Z.to_nat pc) = Some (I OpJeDup (OInt off)) -> zlen (inj a :: live) < 1000 ->
+    exists j', steps (M pc (inj a :: live) blocks h j) (M (pc + off + 1) (inj a :: live) blocks h j').
+  Proof.
+    intros pc a live blocks h j off Ha Ht Hpc Hn Htop.
+    assert (Hne : zlen (inj a :: live) <> stack_size) by (unfold stack_size; lia).
+    assert (Hl : zlen live < 999) by (rewrite !zlen_cons in Htop; lia).
+    exists {| v_dead := v_dead j; v_last := LSlot (zlen live + 1 - 1); v_details := v_details j; v_ops := v_ops (counted j) |}.
+    one_step Hpc Hn Hne.
+    cbn [step i_op i_arg M m_fr m_w with_pop pop fr_live arg_int]. simp_m.
+    rewrite (as_bool_inj _ _ a Ha), Ht. unfold do_push, push. simp_m. rewrite !zlen_cons.
+    (replace (stack_size <=? zlen live + 1 - 1) with false by (symmetry; apply Z.leb_gt; unfold stack_size; lia)).
+    eq_m.
+  Qed.
+
+  (* `je.dup k` on a falsy top: the value is popped (it stays readable through lastPop) *)
+  Lemma step_jedup_false : forall pc a live blocks h j off,
+    scalar a -> truthy a = false ->
+    0 <= pc -> nth_error prog (Z.to_nat pc) = Some (I OpJeDup (OInt off)) -> zlen (inj a :: live) < 1000 ->
+    steps (M pc (inj a :: live) blocks h j) (M (pc + 1) live blocks h (popped (inj a) (zlen live) j)).
+  Proof.
+    intros pc a live blocks h j off Ha Ht Hpc Hn Htop.
+    assert (Hne : zlen (inj a :: live) <> stack_size) by (unfold stack_size; lia).
+    one_step Hpc Hn Hne.
+    cbn [step i_op i_arg M m_fr m_w with_pop pop fr_live arg_int]. simp_m.
+    rewrite (as_bool_inj _ _ a Ha), Ht. unfold popped. eq_m.
+  Qed.
+
+  (* push.last right after a pop: pushes the popped value back *)
+  Lemma step_pushlast : forall pc v live blocks h j,
+    0 <= pc -> nth_error prog (Z.to_nat pc) = Some (I OpPushLast ONil) -> zlen live < 999 ->
+    exists j', steps (M pc live blocks h (popped v (zlen live) j)) (M (pc + 1) (v :: live) blocks h j').
+  Proof.
+    intros pc v live blocks h j Hpc Hn Htop.
+    assert (Hne : zlen live <> stack_size) by (unfold stack_size; lia).
+    exists {| v_dead := v_dead j; v_last := LSlot (zlen live); v_details := v_details j; v_ops := v_ops (counted (popped v (zlen live) j)) |}.
+    one_step Hpc Hn Hne.
+    cbn [step i_op i_arg M m_fr m_w fr_last popped counted v_last]. unfold read_slot. simp_m.
+    pose proof (zlen_nonneg _ live) as Hnn.
+    (replace (zlen live <? 0) with false by (symmetry; apply Z.ltb_ge; lia)).
+    rewrite Z.ltb_irrefl, Z.sub_diag. cbn [Z.to_nat nth_error popped counted v_dead].
+    unfold do_push, push. simp_m. rewrite (leb_size live Htop). cbn [popped counted v_dead v_last v_details v_ops]. eq_m.
+  Qed.
+
+  (* ---- code in context *)
+  Definition code_at (pc : Z) (seg : code) : Prop := exists pre post, prog = pre ++ seg ++ post /\ zlen pre = pc.
+  Lemma code_at_app_l : forall pc a b, code_at pc (a ++ b) -> code_at pc a.
+  Proof. intros pc a b [pre [post [H1 H2]]]. exists pre, (b ++ post). split; [|exact H2]. rewrite H1, <- app_assoc. reflexivity. Qed.
+  Lemma code_at_app_r : forall pc a b, code_at pc (a ++ b) -> code_at (pc + zlen a) b.
+  Proof.
+    intros pc a b [pre [post [H1 H2]]]. exists (pre ++ a), post. split.
+    - rewrite H1, <- !app_assoc. reflexivity.
+    - rewrite zlen_app; lia.
+  Qed.
+  Lemma code_at_head : forall pc i r, code_at pc (i :: r) -> 0 <= pc /\ nth_error prog (Z.to_nat pc) = Some i.
+  Proof.
+    intros pc i r [pre [post [H1 H2]]]. subst pc. split; [apply zlen_nonneg|].
+    rewrite H1. cbn [app]. apply nth_error_mid.
+  Qed.
+  Lemma code_at_tail : forall pc i r, code_at pc (i :: r) -> code_at (pc + 1) r.
+  Proof. intros pc i r H. apply (code_at_app_r pc [i] r) in H. rewrite zlen_cons, zlen_nil in H. exact H. Qed.
+
+  (* ---- the fragment inside the induction *)
+  Fixpoint core_expr (e : expr) : Prop :=
+    match e with
+    | EInt _ | EStr _ | ENull | ETrue | EFalse => True
+    | EVar x => mem_s x builtin_names = false
+    | EAssign _ e1 | EUn _ e1 => core_expr e1
+    | EBin _ l r | EOr l r => core_expr l /\ core_expr r
+    | ETern c a b => core_expr c /\ core_expr a /\ core_expr b
+    | EArr _ | EIdx _ _ | ERoll _ _ => False
+    end.
+
+  (* operand-stack slots an expression needs above the current top *)
+  Fixpoint need (e : expr) : Z :=
+    match e with
+    | EAssign _ e1 | EUn _ e1 => need e1
+    | EBin _ l r => Z.max (need l) (1 + need r)
+    | EOr l r => Z.max (need l) (need r)
+    | ETern c a b => Z.max (need c) (Z.max (need a) (need b))
+    | _ => 1
+    end.
+  Lemma need_pos : forall e, 1 <= need e.
+  Proof. induction e; cbn [need]; lia. Qed.
+
+  Lemma step_binop_all : forall pc a b live blocks h j o,
+    scalar a -> scalar b ->
+    0 <= pc -> nth_error prog (Z.to_nat pc) = Some (I (bin_opcode o) ONil) -> zlen (inj b :: inj a :: live) < 1000 ->
+    match bin_sem (e_cfg E) o a b with
+    | BV v => exists j', steps (M pc (inj b :: inj a :: live) blocks h j) (M (pc + 1) (inj v :: live) blocks h j') /\ scalar v
+    | BE c => fails (M pc (inj b :: inj a :: live) blocks h j) c (get_map attrs h)
+    | BU _ => True
+    end.
+  Proof.
+    intros pc a b live blocks h j o Ha Hb Hpc Hn Htop.
+    destruct o; try (apply step_binop; try assumption; discriminate).
+    cbn [bin_sem]. destruct (step_and pc a b live blocks h j Ha Hb Hpc Hn Htop) as [j' Hj]. exists j'. split; [exact Hj|].
+    destruct (truthy a); assumption.
+  Qed.
+
+  Ltac pcfix := repeat rewrite ?zlen_app, ?zlen_cons, ?zlen_nil; lia.
+
+  Definition expr_post (e : expr) (env : denv) (pc : Z) (live : list value) (blocks : list Z) (h : heap) (j : vol) : Prop :=
+    match dexpr (e_cfg E) e env with
+    | EV v env' => exists h' j', steps (M pc live blocks h j) (M (pc + zlen (compile_expr e)) (inj v :: live) blocks h' j')
+                                 /\ get_map attrs h' = inj_env env' /\ scalar v /\ scalar_env env'
+    | EE c env' => fails (M pc live blocks h j) c (inj_env env')
+    | EU _ => True
+    end.
+
+  Lemma expr_correct : forall e, core_expr e -> forall env pc live blocks h j,
+    code_at pc (compile_expr e) -> get_map attrs h = inj_env env -> scalar_env env -> zlen live + need e <= 999 ->
+    expr_post e env pc live blocks h j.
+  Proof.
+    induction e; intros Hcore env pc live blocks h j Hat Hh Hs Hneed; unfold expr_post; cbn [core_expr] in Hcore; try contradiction.
+    - (* EInt *)
+      cbn [dexpr compile_expr] in *. destruct (code_at_head _ _ _ Hat) as [Hpc Hn].
+      destruct (step_push pc live blocks h j (I OpPushInt (OInt (lit_int n))) (VInt (lit_int n)) (fun _ _ _ => eq_refl) Hpc Hn) as [j' Hj]; [cbn [need] in Hneed; lia|].
+      exists h, j'. rewrite zlen_cons, zlen_nil. repeat split; auto.
+    - (* EStr *)
+      cbn [dexpr compile_expr] in *. destruct (code_at_head _ _ _ Hat) as [Hpc Hn].
+      destruct (step_push pc live blocks h j (I OpPushStr (OStr s)) (VStr s) (fun _ _ _ => eq_refl) Hpc Hn) as [j' Hj]; [cbn [need] in Hneed; lia|].
+      exists h, j'. rewrite zlen_cons, zlen_nil. repeat split; auto.
+    - (* ENull *)
+      cbn [dexpr compile_expr] in *. destruct (code_at_head _ _ _ Hat) as [Hpc Hn].
+      destruct (step_push pc live blocks h j (I OpPushNull ONil) VNull (fun _ _ _ => eq_refl) Hpc Hn) as [j' Hj]; [cbn [need] in Hneed; lia|].
+      exists h, j'. rewrite zlen_cons, zlen_nil. repeat split; auto.
+    - (* ETrue *)
+      cbn [dexpr compile_expr] in *. destruct (code_at_head _ _ _ Hat) as [Hpc Hn].
+      destruct (step_push pc live blocks h j (I OpPushInt (OInt 1)) (VInt 1) (fun _ _ _ => eq_refl) Hpc Hn) as [j' Hj]; [cbn [need] in Hneed; lia|].
+      exists h, j'. rewrite zlen_cons, zlen_nil. repeat split; auto.
+    - (* EFalse *)
+      cbn [dexpr compile_expr] in *. destruct (code_at_head _ _ _ Hat) as [Hpc Hn].
+      destruct (step_push pc live blocks h j (I OpPushInt (OInt 0)) (VInt 0) (fun _ _ _ => eq_refl) Hpc Hn) as [j' Hj]; [cbn [need] in Hneed; lia|].
+      exists h, j'. rewrite zlen_cons, zlen_nil. repeat split; auto.
+    - (* EVar *)
+      cbn [dexpr compile_expr need] in *. destruct (code_at_head _ _ _ Hat) as [Hpc Hn].
+      destruct (code_at_head _ _ _ (code_at_tail _ _ _ Hat)) as [Hpc2 Hn2].
+      destruct (step_mark pc live blocks h j 0 0 Hpc Hn) as [j1 [Hj1 _]]; [lia|].
+      destruct (step_ldd (pc + 1) live blocks h j1 x env Hh Hs Hcore Hpc2 Hn2) as [j2 Hj2]; [lia|].
+      exists h, j2. repeat split; auto.
+      + replace (pc + zlen [I OpMarkDetail (OSpan 0 0); I OpLdD (OStr x)]) with (pc + 1 + 1) by pcfix.
+        eapply steps_trans; eassumption.
+      + apply dlookup_scalar; assumption.
+    - (* EAssign *)
+      cbn [dexpr compile_expr need] in *.
+      pose proof (IHe Hcore env pc live blocks h j (code_at_app_l _ _ _ Hat) Hh Hs Hneed) as IH. unfold expr_post in IH.
+      destruct (dexpr (e_cfg E) e env) as [v env1|c env1|w]; [|exact IH|exact Logic.I].
+      destruct IH as [h1 [j1 [Hst [Hh1 [Hv Hs1]]]]].
+      destruct (code_at_head _ _ _ (code_at_app_r _ _ _ Hat)) as [Hpc Hn].
+      destruct (step_store (pc + zlen (compile_expr e)) (inj v) live blocks h1 j1 x Hpc Hn) as [j2 Hj2].
+      { rewrite zlen_cons. pose proof (need_pos e). lia. }
+      exists (set_map attrs (mset x (inj v) (get_map attrs h1)) h1), j2. repeat split.
+      + replace (pc + zlen (compile_expr e ++ [I OpStore (OStr x)])) with (pc + zlen (compile_expr e) + 1) by pcfix.
+        eapply steps_trans; eassumption.
+      + rewrite get_map_set_map, Hh1. apply mset_inj.
+      + exact Hv.
+      + apply dset_scalar; assumption.
+    - (* EUn *)
+      cbn [dexpr compile_expr need] in *.
+      pose proof (IHe Hcore env pc live blocks h j (code_at_app_l _ _ _ Hat) Hh Hs Hneed) as IH. unfold expr_post in IH.
+      destruct (dexpr (e_cfg E) e env) as [v env1|c env1|w]; [|exact IH|exact Logic.I].
+      destruct IH as [h1 [j1 [Hst [Hh1 [Hv Hs1]]]]].
+      destruct (code_at_head _ _ _ (code_at_app_r _ _ _ Hat)) as [Hpc Hn].
+      pose proof (step_unary (pc + zlen (compile_expr e)) v live blocks h1 j1 o Hv Hpc Hn) as Hu.
+      assert (Hb : zlen (inj v :: live) < 1000) by (rewrite zlen_cons; pose proof (need_pos e); lia).
+      specialize (Hu Hb). destruct (un_sem o v) as [r|c|w]; cbn [lift_b].
+      + destruct Hu as [j2 [Hj2 Hr]]. exists h1, j2. repeat split; auto.
+        replace (pc + zlen (compile_expr e ++ [I (un_opcode o) ONil])) with (pc + zlen (compile_expr e) + 1) by pcfix.
+        eapply steps_trans; eassumption.
+      + rewrite <- Hh1. eapply steps_fails; eassumption.
+      + exact Logic.I.
+    - (* EBin *)
+      cbn [dexpr compile_expr need] in *. destruct Hcore as [Hc1 Hc2].
+      pose proof (IHe1 Hc1 env pc live blocks h j (code_at_app_l _ _ _ Hat) Hh Hs ltac:(lia)) as IH1. unfold expr_post in IH1.
+      destruct (dexpr (e_cfg E) e1 env) as [a env1|c env1|w]; [|exact IH1|exact Logic.I].
+      destruct IH1 as [h1 [j1 [Hst1 [Hh1 [Ha Hs1]]]]].
+      pose proof (code_at_app_r _ _ _ Hat) as Hat2.
+      pose proof (IHe2 Hc2 env1 (pc + zlen (compile_expr e1)) (inj a :: live) blocks h1 j1 (code_at_app_l _ _ _ Hat2) Hh1 Hs1) as IH2.
+      assert (Hn2 : zlen (inj a :: live) + need e2 <= 999) by (rewrite zlen_cons; lia).
+      specialize (IH2 Hn2). unfold expr_post in IH2.
+      destruct (dexpr (e_cfg E) e2 env1) as [b env2|c env2|w]; [|eapply steps_fails; eassumption|exact Logic.I].
+      destruct IH2 as [h2 [j2 [Hst2 [Hh2 [Hb Hs2]]]]].
+      destruct (code_at_head _ _ _ (code_at_app_r _ _ _ Hat2)) as [Hpc Hn].
+      pose proof (step_binop_all (pc + zlen (compile_expr e1) + zlen (compile_expr e2)) a b live blocks h2 j2 o Ha Hb Hpc Hn) as Hop.
+      assert (Hb3 : zlen (inj b :: inj a :: live) < 1000) by (rewrite !zlen_cons; pose proof (need_pos e2); lia).
+      specialize (Hop Hb3). destruct (bin_sem (e_cfg E) o a b) as [r|c|w]; cbn [lift_b].
+      + destruct Hop as [j3 [Hj3 Hr]]. exists h2, j3. repeat split; auto.
+        replace (pc + zlen (compile_expr e1 ++ compile_expr e2 ++ [I (bin_opcode o) ONil]))
+          with (pc + zlen (compile_expr e1) + zlen (compile_expr e2) + 1) by pcfix.
+        eapply steps_trans; [exact Hst1|]. eapply steps_trans; eassumption.
+      + rewrite <- Hh2. eapply steps_fails; [exact Hst1|]. eapply steps_fails; eassumption.
+      + exact Logic.I.
+    - (* EOr *)
+      cbn [dexpr compile_expr need] in *. destruct Hcore as [Hc1 Hc2].
+      set (cl := compile_expr e1) in *. set (cr := compile_expr e2) in *.
+      pose proof (IHe1 Hc1 env pc live blocks h j (code_at_app_l _ _ _ Hat) Hh Hs ltac:(lia)) as IH1. unfold expr_post in IH1.
+      destruct (dexpr (e_cfg E) e1 env) as [a env1|c env1|w]; [|exact IH1|exact Logic.I].
+      destruct IH1 as [h1 [j1 [Hst1 [Hh1 [Ha Hs1]]]]]. fold cl in Hst1.
+      pose proof (code_at_app_r _ _ _ Hat) as Hat2.                       (* je.dup :: cr ++ [je.dup; push.last] *)
+      cbn [app] in Hat2.
+      destruct (code_at_head _ _ _ Hat2) as [Hpc1 Hn1].
+      pose proof (code_at_tail _ _ _ Hat2) as Hat3.                       (* cr ++ [je.dup 1; push.last] *)
+      assert (Hb1 : zlen (inj a :: live) < 1000) by (rewrite zlen_cons; pose proof (need_pos e1); lia).
+      assert (Hend : pc + zlen (cl ++ I OpJeDup (OInt (zlen cr + 2)) :: cr ++ [I OpJeDup (OInt 1); I OpPushLast ONil])
+                     = pc + zlen cl + zlen cr + 3) by pcfix.
+      cbn [app]. rewrite Hend.
+      destruct (truthy a) eqn:Ta.
+      + destruct (step_jedup_true (pc + zlen cl) a live blocks h1 j1 _ Ha Ta Hpc1 Hn1 Hb1) as [j2 Hj2].
+        exists h1, j2. repeat split; auto.
+        replace (pc + zlen cl + zlen cr + 3) with (pc + zlen cl + (zlen cr + 2) + 1) by lia.
+        eapply steps_trans; eassumption.
+      + pose proof (step_jedup_false (pc + zlen cl) a live blocks h1 j1 _ Ha Ta Hpc1 Hn1 Hb1) as Hj2.
+        pose proof (IHe2 Hc2 env1 (pc + zlen cl + 1) live blocks h1 (popped (inj a) (zlen live) j1)
+                         (code_at_app_l _ _ _ Hat3) Hh1 Hs1 ltac:(lia)) as IH2. unfold expr_post in IH2.
+        destruct (dexpr (e_cfg E) e2 env1) as [b env2|c env2|w];
+          [|eapply steps_fails; [exact Hst1|]; eapply steps_fails; eassumption|exact Logic.I].
+        destruct IH2 as [h2 [j2 [Hst2 [Hh2 [Hb Hs2]]]]]. fold cr in Hst2.
+        pose proof (code_at_app_r _ _ _ Hat3) as Hat4.
+        destruct (code_at_head _ _ _ Hat4) as [Hpc2 Hn2].
+        destruct (code_at_head _ _ _ (code_at_tail _ _ _ Hat4)) as [Hpc3 Hn3].
+        assert (Hb2 : zlen (inj b :: live) < 1000) by (rewrite zlen_cons; pose proof (need_pos e2); lia).
+        assert (Hpre : steps (M pc live blocks h j) (M (pc + zlen cl + 1 + zlen cr) (inj b :: live) blocks h2 j2)).
+        { eapply steps_trans; [exact Hst1|]. eapply steps_trans; eassumption. }
+        destruct (truthy b) eqn:Tb.
+        * destruct (step_jedup_true (pc + zlen cl + 1 + zlen cr) b live blocks h2 j2 _ Hb Tb Hpc2 Hn2 Hb2) as [j3 Hj3].
+          exists h2, j3. repeat split; auto.
+          replace (pc + zlen cl + zlen cr + 3) with (pc + zlen cl + 1 + zlen cr + 1 + 1) by lia.
+          eapply steps_trans; eassumption.
+        * pose proof (step_jedup_false (pc + zlen cl + 1 + zlen cr) b live blocks h2 j2 _ Hb Tb Hpc2 Hn2 Hb2) as Hj3.
+          destruct (step_pushlast (pc + zlen cl + 1 + zlen cr + 1) (inj b) live blocks h2 j2 Hpc3 Hn3) as [j4 Hj4].
+          { pose proof (need_pos e2); lia. }
+          exists h2, j4. repeat split; auto.
+          replace (pc + zlen cl + zlen cr + 3) with (pc + zlen cl + 1 + zlen cr + 1 + 1) by lia.
+          eapply steps_trans; [exact Hpre|]. eapply steps_trans; eassumption.
+    - (* ETern *)
+      cbn [dexpr compile_expr need] in *. destruct Hcore as [Hc1 [Hc2 Hc3]].
+      set (cc := compile_expr e1) in *. set (ca := compile_expr e2) in *. set (cb := compile_expr e3) in *.
+      pose proof (IHe1 Hc1 env pc live blocks h j (code_at_app_l _ _ _ Hat) Hh Hs ltac:(lia)) as IH1. unfold expr_post in IH1.
+      destruct (dexpr (e_cfg E) e1 env) as [vc env1|c env1|w]; [|exact IH1|exact Logic.I].
+      destruct IH1 as [h1 [j1 [Hst1 [Hh1 [Hvc Hs1]]]]]. fold cc in Hst1.
+      pose proof (code_at_app_r _ _ _ Hat) as Hat2. cbn [app] in Hat2.    (* jne :: ca ++ jmp :: cb *)
+      destruct (code_at_head _ _ _ Hat2) as [Hpc1 Hn1].
+      pose proof (code_at_tail _ _ _ Hat2) as Hat3.                       (* ca ++ jmp :: cb *)
+      assert (Hb1 : zlen (inj vc :: live) < 1000) by (rewrite zlen_cons; pose proof (need_pos e1); lia).
+      pose proof (step_jne (pc + zlen cc) vc live blocks h1 j1 _ Hvc Hpc1 Hn1 Hb1) as Hj.
+      assert (Hend : pc + zlen (cc ++ I OpJne (OInt (zlen ca + 1)) :: ca ++ I OpJmp (OInt (zlen cb)) :: cb)
+                     = pc + zlen cc + 1 + zlen ca + 1 + zlen cb) by pcfix.
+      cbn [app]. rewrite Hend.
+      destruct (truthy vc) eqn:Tc.
+      + pose proof (IHe2 Hc2 env1 (pc + zlen cc + 1) live blocks h1 (popped (inj vc) (zlen live) j1)
+                         (code_at_app_l _ _ _ Hat3) Hh1 Hs1 ltac:(lia)) as IH2. unfold expr_post in IH2.
+        destruct (dexpr (e_cfg E) e2 env1) as [va env2|c env2|w];
+          [|eapply steps_fails; [exact Hst1|]; eapply steps_fails; eassumption|exact Logic.I].
+        destruct IH2 as [h2 [j2 [Hst2 [Hh2 [Hva Hs2]]]]]. fold ca in Hst2.
+        destruct (code_at_head _ _ _ (code_at_app_r _ _ _ Hat3)) as [Hpc2 Hn2].
+        assert (Hb2 : zlen (inj va :: live) < 1000) by (rewrite zlen_cons; pose proof (need_pos e2); lia).
+        pose proof (step_jmp (pc + zlen cc + 1 + zlen ca) (inj va :: live) blocks h2 j2 _ Hpc2 Hn2 Hb2) as Hj2.
+        exists h2, (counted j2). repeat split; auto.
+        replace (pc + zlen cc + 1 + zlen ca + 1 + zlen cb) with (pc + zlen cc + 1 + zlen ca + zlen cb + 1) by lia.
+        eapply steps_trans; [exact Hst1|]. eapply steps_trans; [exact Hj|]. eapply steps_trans; eassumption.
+      + pose proof (code_at_tail _ _ _ (code_at_app_r _ _ _ Hat3)) as Hat4.
+        pose proof (IHe3 Hc3 env1 (pc + zlen cc + 1 + zlen ca + 1) live blocks h1 (popped (inj vc) (zlen live) j1)
+                         Hat4 Hh1 Hs1 ltac:(lia)) as IH3. unfold expr_post in IH3.
+        replace (pc + zlen cc + (zlen ca + 1) + 1) with (pc + zlen cc + 1 + zlen ca + 1) in Hj by lia.
+        destruct (dexpr (e_cfg E) e3 env1) as [vb env2|c env2|w];
+          [|eapply steps_fails; [exact Hst1|]; eapply steps_fails; eassumption|exact Logic.I].
+        destruct IH3 as [h2 [j2 [Hst2 [Hh2 [Hvb Hs2]]]]]. fold cb in Hst2.
+        exists h2, j2. repeat split; auto.
+        eapply steps_trans; [exact Hst1|]. eapply steps_trans; eassumption.
+  Qed.
+
+  (* ------------------------------------------------------------------ statements (loop-free fragment) *)
+  Lemma step_blockpush : forall pc live blocks h j,
+    0 <= pc -> nth_error prog (Z.to_nat pc) = Some (I OpBlockPush ONil) -> zlen live < 1000 -> zlen blocks < 20 ->
+    steps (M pc live blocks h j) (M (pc + 1) live (zlen live :: blocks) h (counted j)).
+  Proof.
+    intros pc live blocks h j Hpc Hn Htop Hb.
+    assert (Hne : zlen live <> stack_size) by (unfold stack_size; lia).
+    one_step Hpc Hn Hne. cbn [step i_op i_arg M m_fr m_w fr_blocks].
+    (replace (block_depth <=? zlen blocks) with false by (symmetry; apply Z.leb_gt; unfold block_depth; lia)).
+    eq_m.
+  Qed.
+
+  Lemma lower_top_app : forall (a l d : list value), lower_top (length a) (a ++ l) d = (l, rev a ++ d).
+  Proof.
+    induction a as [|x a IH]; intros l d; cbn [length lower_top app rev]; [reflexivity|].
+    rewrite IH, <- app_assoc. reflexivity.
+  Qed.
+
+  (* block.pop when the block left at least one value above the saved height: the deepest of them stays *)
+  Lemma step_blockpop_lower : forall pc a y live blocks h j,
+    0 <= pc -> nth_error prog (Z.to_nat pc) = Some (I OpBlockPop ONil) -> zlen (a ++ y :: live) < 1000 ->
+    exists j', steps (M pc (a ++ y :: live) (zlen live + 1 :: blocks) h j) (M (pc + 1) (VNull :: y :: live) blocks h j').
+  Proof.
+    intros pc a y live blocks h j Hpc Hn Htop.
+    assert (Hne : zlen (a ++ y :: live) <> stack_size) by (unfold stack_size; lia).
+    rewrite zlen_app, zlen_cons in Htop. pose proof (zlen_nonneg _ a) as Ha. pose proof (zlen_nonneg _ live) as Hl.
+    exists {| v_dead := tl (rev a ++ v_dead j); v_last := v_last j; v_details := v_details j; v_ops := v_ops (counted j) |}.
+    one_step Hpc Hn Hne. cbn [step i_op i_arg M m_fr m_w fr_blocks]. unfold set_top. simp_m.
+    rewrite zlen_app, zlen_cons.
+    (replace (zlen live + 1 <=? zlen a + (zlen live + 1)) with true by (symmetry; apply Z.leb_le; lia)).
+    replace (Z.to_nat (zlen a + (zlen live + 1) - (zlen live + 1))) with (length a) by (unfold zlen; lia).
+    rewrite lower_top_app. simp_m. unfold do_push, push. simp_m.
+    (replace (stack_size <=? zlen live + 1) with false by (symmetry; apply Z.leb_gt; unfold stack_size; lia)).
+    simp_m. eq_m.
+  Qed.
+
+  (* block.pop when the block left nothing: the stale slot of the popped condition comes back *)
+  Lemma step_blockpop_raise : forall pc y live blocks h j,
+    0 <= pc -> nth_error prog (Z.to_nat pc) = Some (I OpBlockPop ONil) -> zlen live < 998 ->
+    v_dead j = y :: tl (v_dead j) ->
+    exists j', steps (M pc live (zlen live + 1 :: blocks) h j) (M (pc + 1) (VNull :: y :: live) blocks h j').
+  Proof.
+    intros pc y live blocks h j Hpc Hn Htop Hd.
+    assert (Hne : zlen live <> stack_size) by (unfold stack_size; lia).
+    exists {| v_dead := tl (tl (v_dead j)); v_last := v_last j; v_details := v_details j; v_ops := v_ops (counted j) |}.
+    one_step Hpc Hn Hne. cbn [step i_op i_arg M m_fr m_w fr_blocks]. unfold set_top. simp_m.
+    (replace (zlen live + 1 <=? zlen live) with false by (symmetry; apply Z.leb_gt; lia)).
+    replace (Z.to_nat (zlen live + 1 - zlen live)) with 1%nat by lia.
+    cbn [counted v_dead]. rewrite Hd. cbn [raise_top tl]. simp_m. unfold do_push, push. simp_m.
+    (replace (stack_size <=? zlen live + 1) with false by (symmetry; apply Z.leb_gt; unfold stack_size; lia)).
+    simp_m. eq_m.
+  Qed.
+
+  Lemma blockpop_after : forall pc junk live blocks h j y0,
+    0 <= pc -> nth_error prog (Z.to_nat pc) = Some (I OpBlockPop ONil) -> zlen (junk ++ live) < 1000 -> zlen live < 998 ->
+    (junk = [] -> v_dead j = y0 :: tl (v_dead j)) ->
+    exists j' y, steps (M pc (junk ++ live) (zlen live + 1 :: blocks) h j) (M (pc + 1) (VNull :: y :: live) blocks h j').
+  Proof.
+    intros pc junk live blocks h j y0 Hpc Hn Htop Hl Hd.
+    destruct junk as [|x r].
+    - cbn [app]. destruct (step_blockpop_raise pc y0 live blocks h j Hpc Hn Hl (Hd eq_refl)) as [j' Hj]. exists j', y0. exact Hj.
+    - destruct (@exists_last _ (x :: r) ltac:(discriminate)) as [a [y Hy]]. rewrite Hy in *. rewrite <- app_assoc in *. cbn [app] in *.
+      destruct (step_blockpop_lower pc a y live blocks h j Hpc Hn Htop) as [j' Hj]. exists j', y. exact Hj.
+  Qed.
+
+  Fixpoint core_stmt (s : stmt) : Prop :=
+    match s with
+    | SNop => True
+    | SExpr e => core_expr e
+    | SSeq a b => core_stmt a /\ core_stmt b
+    | SIf c t e => core_expr c /\ core_stmt t /\ core_stmt e
+    | SWhile _ _ | SBreak | SContinue => False
+    end.
+  (* operand-stack slots a statement leaves behind / needs; block-stack depth it needs *)
+  Fixpoint leaves (s : stmt) : Z :=
+    match s with SExpr _ => 1 | SSeq a b => leaves a + leaves b | SIf _ _ _ => 2 | _ => 0 end.
+  Fixpoint sneed (s : stmt) : Z :=
+    match s with
+    | SExpr e => need e
+    | SSeq a b => Z.max (sneed a) (leaves a + sneed b)
+    | SIf c t e => Z.max 2 (Z.max (need c) (Z.max (sneed t) (sneed e)))
+    | _ => 0
+    end.
+  Fixpoint bneed (s : stmt) : Z :=
+    match s with
+    | SSeq a b => Z.max (bneed a) (bneed b)
+    | SIf _ t e => 1 + Z.max (bneed t) (bneed e)
+    | _ => 0
+    end.
+  Lemma leaves_le_sneed : forall s, leaves s <= sneed s.
+  Proof. induction s; cbn [leaves sneed]; try lia. pose proof (need_pos e); lia. Qed.
+  Lemma leaves_nonneg : forall s, 0 <= leaves s.
+  Proof. induction s; cbn [leaves]; lia. Qed.
+  Lemma sneed_nonneg : forall s, 0 <= sneed s.
+  Proof. induction s; cbn [sneed]; try lia. pose proof (need_pos e); lia. Qed.
+  Lemma bneed_nonneg : forall s, 0 <= bneed s.
+  Proof. induction s; cbn [bneed]; lia. Qed.
+
+  Lemma zlen_repeat : forall A (x : A) n, zlen (repeat x n) = Z.of_nat n.
+  Proof. intros; unfold zlen; rewrite repeat_length; reflexivity. Qed.
+  Lemma ssize_compile : forall s d bo ao, zlen (compile_stmt d bo ao s) = ssize d s.
+  Proof.
+    induction s; intros d bo ao; cbn [compile_stmt ssize]; rewrite ?zlen_app, ?zlen_cons, ?zlen_nil; unfold pops;
+      rewrite ?zlen_app, ?zlen_cons, ?zlen_nil, ?zlen_repeat, ?IHs1, ?IHs2, ?IHs; lia.
+  Qed.
+
+  Definition stmt_post (d : nat) (bo ao : Z) (fuel : nat) (s : stmt) (env : denv)
+             (pc : Z) (live : list value) (blocks : list Z) (h : heap) (j : vol) : Prop :=
+    match dstmt (e_cfg E) fuel s env with
+    | SNorm v env' =>
+      exists h' j' junk,
+        steps (M pc live blocks h j) (M (pc + zlen (compile_stmt d bo ao s)) (junk ++ live) blocks h' j')
+        /\ get_map attrs h' = inj_env env' /\ scalar_env env' /\ zlen junk <= leaves s
+        /\ match v with
+           | Some x => scalar x /\ exists junk', junk = inj x :: junk'
+           | None => junk = [] /\ compile_stmt d bo ao s = [] /\ h' = h /\ j' = j
+           end
+    | SErrR c env' => fails (M pc live blocks h j) c (inj_env env')
+    | _ => True
+    end.
+
+  Lemma stmt_correct : forall s, core_stmt s -> forall d bo ao fuel env pc live blocks h j,
+    code_at pc (compile_stmt d bo ao s) -> get_map attrs h = inj_env env -> scalar_env env ->
+    zlen live + sneed s <= 999 -> zlen blocks + bneed s <= 20 ->
+    stmt_post d bo ao fuel s env pc live blocks h j.
+  Proof.
+    induction s; intros Hcore d bo ao fuel env pc live blocks h j Hat Hh Hs Hneed Hbn; unfold stmt_post;
+      cbn [core_stmt] in Hcore; try contradiction.
+    - (* SNop *)
+      cbn [dstmt compile_stmt leaves]. exists h, j, []. rewrite zlen_nil, Z.add_0_r. cbn [app].
+      repeat split; auto; try lia; [apply steps_refl|rewrite zlen_nil; lia].
+    - (* SExpr *)
+      cbn [dstmt compile_stmt leaves sneed] in *.
+      pose proof (expr_correct e Hcore env pc live blocks h j Hat Hh Hs Hneed) as IH. unfold expr_post in IH.
+      destruct (dexpr (e_cfg E) e env) as [v env1|c env1|w]; [|exact IH|exact Logic.I].
+      destruct IH as [h1 [j1 [Hst [Hh1 [Hv Hs1]]]]].
+      exists h1, j1, [inj v]. cbn [app]. repeat split; auto; try (rewrite zlen_cons, zlen_nil; lia).
+      exists []; reflexivity.
+    - (* SSeq *)
+      cbn [dstmt compile_stmt leaves sneed bneed] in *. destruct Hcore as [Hc1 Hc2].
+      set (ca := compile_stmt d bo (ao + ssize d s2) s1) in *. set (cb := compile_stmt d (bo + ssize d s1) ao s2) in *.
+      pose proof (IHs1 Hc1 d bo (ao + ssize d s2) fuel env pc live blocks h j (code_at_app_l _ _ _ Hat) Hh Hs ltac:(lia) ltac:(lia)) as IH1.
+      unfold stmt_post in IH1. fold ca in IH1.
+      destruct (dstmt (e_cfg E) fuel s1 env) as [v1 env1|e1|e1|c env1| |w]; try exact Logic.I; [|exact IH1].
+      destruct IH1 as [h1 [j1 [junk1 [Hst1 [Hh1 [Hs1 [Hl1 Hv1]]]]]]].
+      pose proof (IHs2 Hc2 d (bo + ssize d s1) ao fuel env1 (pc + zlen ca) (junk1 ++ live) blocks h1 j1
+                       (code_at_app_r _ _ _ Hat) Hh1 Hs1) as IH2.
+      assert (Hn2 : zlen (junk1 ++ live) + sneed s2 <= 999) by (rewrite zlen_app; lia).
+      specialize (IH2 Hn2 ltac:(lia)). unfold stmt_post in IH2. fold cb in IH2.
+      destruct (dstmt (e_cfg E) fuel s2 env1) as [v2 env2|e2|e2|c env2| |w]; try exact Logic.I;
+        [|eapply steps_fails; eassumption].
+      destruct IH2 as [h2 [j2 [junk2 [Hst2 [Hh2 [Hs2 [Hl2 Hv2]]]]]]].
+      exists h2, j2, (junk2 ++ junk1). rewrite <- app_assoc. repeat split; auto.
+      + replace (pc + zlen (ca ++ cb)) with (pc + zlen ca + zlen cb) by pcfix. eapply steps_trans; eassumption.
+      + rewrite zlen_app; lia.
+      + destruct v2 as [x2|].
+        * destruct Hv2 as [Hx [junk' ->]]. split; [exact Hx|]. exists (junk' ++ junk1). reflexivity.
+        * destruct Hv2 as [-> [Hcb [-> ->]]]. cbn [app]. destruct v1 as [x1|]; [exact Hv1|].
+          destruct Hv1 as [-> [Hca [-> ->]]]. repeat split; auto. rewrite Hca, Hcb. reflexivity.
+    - (* SIf *)
+      cbn [dstmt compile_stmt leaves sneed bneed] in *. destruct Hcore as [Hc0 [Hc1 Hc2]].
+      set (cc := compile_expr c) in *.
+      set (T := compile_stmt (S d) (bo + zlen cc + 2) (ao + 1 + ssize (S d) s2 + 1) s1) in *.
+      set (F := compile_stmt (S d) (bo + zlen cc + 2 + ssize (S d) s1 + 1) (ao + 1) s2) in *.
+      assert (HT : ssize (S d) s1 = zlen T) by (symmetry; apply ssize_compile).
+      assert (HF : ssize (S d) s2 = zlen F) by (symmetry; apply ssize_compile).
+      rewrite HT, HF in Hat.
+      pose proof (expr_correct c Hc0 env pc live blocks h j (code_at_app_l _ _ _ Hat) Hh Hs ltac:(lia)) as IH0. unfold expr_post in IH0.
+      destruct (dexpr (e_cfg E) c env) as [vc env1|k env1|w]; [|exact IH0|exact Logic.I].
+      destruct IH0 as [h1 [j1 [Hst0 [Hh1 [Hvc Hs1]]]]]. fold cc in Hst0.
+      pose proof (code_at_app_r _ _ _ Hat) as Hat1. cbn [app] in Hat1.     (* block.push :: jne :: T ++ jmp :: F ++ [block.pop] *)
+      destruct (code_at_head _ _ _ Hat1) as [Hpc1 Hn1].
+      pose proof (code_at_tail _ _ _ Hat1) as Hat2.
+      destruct (code_at_head _ _ _ Hat2) as [Hpc2 Hn2].
+      pose proof (code_at_tail _ _ _ Hat2) as Hat3.                        (* T ++ jmp :: F ++ [block.pop] *)
+      pose proof (need_pos c) as Hnc. pose proof (bneed_nonneg s1) as Hb1. pose proof (bneed_nonneg s2) as Hb2.
+      pose proof (sneed_nonneg s1) as Hsn1. pose proof (sneed_nonneg s2) as Hsn2.
+      assert (Hl1 : zlen (inj vc :: live) < 1000) by (rewrite zlen_cons; lia).
+      pose proof (step_blockpush (pc + zlen cc) (inj vc :: live) blocks h1 j1 Hpc1 Hn1 Hl1 ltac:(lia)) as Hbp.
+      rewrite zlen_cons in Hbp.
+      pose proof (step_jne (pc + zlen cc + 1) vc live (zlen live + 1 :: blocks) h1 (counted j1) _ Hvc Hpc2 Hn2 Hl1) as Hj.
+      set (jj := popped (inj vc) (zlen live) (counted j1)) in *.
+      assert (Hpre : steps (M pc live blocks h j)
+                           (M (if truthy vc then pc + zlen cc + 1 + 1 else pc + zlen cc + 1 + (zlen T + 1) + 1) live (zlen live + 1 :: blocks) h1 jj)).
+      { eapply steps_trans; [exact Hst0|]. eapply steps_trans; eassumption. }
+      assert (Hblk : zlen (zlen live + 1 :: blocks) + Z.max (bneed s1) (bneed s2) <= 20) by (rewrite zlen_cons; lia).
+      assert (Hend : pc + zlen (cc ++ I OpBlockPush ONil :: I OpJne (OInt (zlen T + 1)) :: T ++ I OpJmp (OInt (zlen F)) :: F ++ [I OpBlockPop ONil])
+                     = pc + zlen cc + 2 + zlen T + 1 + zlen F + 1) by pcfix.
+      cbn [app]. rewrite HT, HF, Hend.
+      pose proof (code_at_app_r _ _ _ Hat3) as Hat4.                       (* jmp :: F ++ [block.pop] *)
+      destruct (code_at_head _ _ _ Hat4) as [Hpc4 Hn4].
+      pose proof (code_at_tail _ _ _ Hat4) as Hat5.                        (* F ++ [block.pop] *)
+      destruct (code_at_head _ _ _ (code_at_app_r _ _ _ Hat5)) as [Hpc6 Hn6].
+      destruct (truthy vc) eqn:Tc.
+      + (* then-branch *)
+        pose proof (IHs1 Hc1 (S d) (bo + zlen cc + 2) (ao + 1 + ssize (S d) s2 + 1) fuel env1 (pc + zlen cc + 1 + 1) live
+                         (zlen live + 1 :: blocks) h1 jj (code_at_app_l _ _ _ Hat3) Hh1 Hs1 ltac:(lia) ltac:(lia)) as IH1.
+        unfold stmt_post in IH1. fold T in IH1.
+        destruct (dstmt (e_cfg E) fuel s1 env1) as [v1 env2|e1|e1|k env2| |w]; try exact Logic.I;
+          [|eapply steps_fails; eassumption].
+        destruct IH1 as [h2 [j2 [junk [Hst1 [Hh2 [Hs2 [Hlv Hv1]]]]]]].
+        pose proof (leaves_le_sneed s1) as Hls.
+        assert (Hl2 : zlen (junk ++ live) < 1000) by (rewrite zlen_app; lia).
+        pose proof (step_jmp (pc + zlen cc + 1 + 1 + zlen T) (junk ++ live) (zlen live + 1 :: blocks) h2 j2 _ Hpc4 Hn4 Hl2) as Hjmp.
+        destruct (blockpop_after (pc + zlen cc + 1 + 1 + zlen T + zlen F + 1) junk live blocks h2 (counted j2) (inj vc)) as [j3 [y Hpop]].
+        { lia. }
+        { replace (pc + zlen cc + 1 + 1 + zlen T + zlen F + 1) with (pc + zlen cc + 1 + 1 + zlen T + 1 + zlen F) by lia. exact Hn6. }
+        { exact Hl2. } { lia. }
+        { intros ->. destruct v1 as [x|]; [destruct Hv1 as [_ [junk' Hx]]; discriminate|].
+          destruct Hv1 as [_ [_ [_ ->]]]. reflexivity. }
+        exists h2, j3, [VNull; y]. cbn [app]. repeat split; auto.
+        * replace (pc + zlen cc + 2 + zlen T + 1 + zlen F + 1) with (pc + zlen cc + 1 + 1 + zlen T + zlen F + 1 + 1) by lia.
+          eapply steps_trans; [exact Hpre|]. eapply steps_trans; [exact Hst1|]. eapply steps_trans; [exact Hjmp|]. exact Hpop.
+        * rewrite !zlen_cons, zlen_nil; lia.
+        * exists [y]; reflexivity.
+      + (* else-branch *)
+        pose proof (IHs2 Hc2 (S d) (bo + zlen cc + 2 + ssize (S d) s1 + 1) (ao + 1) fuel env1 (pc + zlen cc + 1 + (zlen T + 1) + 1) live
+                         (zlen live + 1 :: blocks) h1 jj) as IH2.
+        assert (Hat6 : code_at (pc + zlen cc + 1 + (zlen T + 1) + 1) (compile_stmt (S d) (bo + zlen cc + 2 + ssize (S d) s1 + 1) (ao + 1) s2)).
+        { fold F. replace (pc + zlen cc + 1 + (zlen T + 1) + 1) with (pc + zlen cc + 1 + 1 + zlen T + 1) by lia.
+          exact (code_at_app_l _ _ _ Hat5). }
+        specialize (IH2 Hat6 Hh1 Hs1 ltac:(lia) ltac:(lia)). unfold stmt_post in IH2. fold F in IH2.
+        destruct (dstmt (e_cfg E) fuel s2 env1) as [v1 env2|e1|e1|k env2| |w]; try exact Logic.I;
+          [|eapply steps_fails; eassumption].
+        destruct IH2 as [h2 [j2 [junk [Hst1 [Hh2 [Hs2 [Hlv Hv1]]]]]]].
+        pose proof (leaves_le_sneed s2) as Hls.
+        assert (Hl2 : zlen (junk ++ live) < 1000) by (rewrite zlen_app; lia).
+        destruct (blockpop_after (pc + zlen cc + 1 + (zlen T + 1) + 1 + zlen F) junk live blocks h2 j2 (inj vc)) as [j3 [y Hpop]].
+        { lia. }
+        { replace (pc + zlen cc + 1 + (zlen T + 1) + 1 + zlen F) with (pc + zlen cc + 1 + 1 + zlen T + 1 + zlen F) by lia. exact Hn6. }
+        { exact Hl2. } { lia. }
+        { intros ->. destruct v1 as [x|]; [destruct Hv1 as [_ [junk' Hx]]; discriminate|].
+          destruct Hv1 as [_ [_ [_ ->]]]. reflexivity. }
+        exists h2, j3, [VNull; y]. cbn [app]. repeat split; auto.
+        * replace (pc + zlen cc + 2 + zlen T + 1 + zlen F + 1) with (pc + zlen cc + 1 + (zlen T + 1) + 1 + zlen F + 1) by lia.
+          eapply steps_trans; [exact Hpre|]. eapply steps_trans; [exact Hst1|]. exact Hpop.
+        * rewrite !zlen_cons, zlen_nil; lia.
+        * exists [y]; reflexivity.
+  Qed.
 End Run.
+
+(* ------------------------------------------------------------------ whole programs *)
+Definition vars_of_state (st : vmstate) : vmap := get_map (vs_attrs st) (vs_heap st).
+
+Definition prog_post (cfg : config) (ftab : ftab) (fuel : nat) (p : stmt) (env : denv) (src : string) (st : vmstate) : Prop :=
+  match denote fuel cfg p env with
+  | DVal v env' =>
+    exists fuel' st', run fuel' {| e_ftab := ftab; e_cfg := cfg |} (compile p) src st = Val (inj v) st'
+                      /\ vars_of_state st' = inj_env env' /\ vs_attrs st' = vs_attrs st /\ scalar v /\ scalar_env env'
+  | DErr c env' =>
+    exists fuel' st', run fuel' {| e_ftab := ftab; e_cfg := cfg |} (compile p) src st = Err c st'
+                      /\ vars_of_state st' = inj_env env'
+  | DOutOfFuel | DUnsup _ => True
+  end.
+
+Theorem compile_correct_core : forall p, core_stmt p -> sneed p <= 999 -> bneed p <= 20 ->
+  forall cfg ftab fuel env src st,
+    cfg_op_limit cfg = 0 -> scalar_env env -> vars_of_state st = inj_env env ->
+    prog_post cfg ftab fuel p env src st.
+Proof.
+  intros p Hcore Hsn Hbn cfg ftab fuel env src st Hlim Hs Hh. unfold prog_post, denote.
+  set (E := {| e_ftab := ftab; e_cfg := cfg |}).
+  set (prog := compile p).
+  set (j0 := {| v_dead := []; v_last := LNone; v_details := []; v_ops := 0 |}).
+  set (wod0 := {| w_pool := 0; w_points := 0; w_threshold := 0; w_isge := false |}).
+  set (dc0 := {| c_pool := 0; c_points := 0 |}).
+  assert (Hat : code_at prog 0 (compile_stmt 0 0 0 p)).
+  { exists [], [I OpHalt ONil]. split; reflexivity. }
+  pose proof (stmt_correct E Hlim prog [] wod0 dc0 (Some src) (vs_pcg st) [] (vs_attrs st) p Hcore 0%nat 0 0 fuel env 0 [] []
+                           (vs_heap st) j0 Hat Hh Hs) as H.
+  specialize (H ltac:(rewrite zlen_nil; lia) ltac:(rewrite zlen_nil; lia)). unfold stmt_post in H.
+  change (e_cfg E) with cfg in H.
+  assert (Hrun : forall f, run f E prog src st =
+                           match exec f E (M prog [] wod0 dc0 (Some src) (vs_pcg st) [] (vs_attrs st) 0 [] [] (vs_heap st) j0) with
+                           | Fin m => Val (match fr_live (m_fr m) with v :: _ => v | [] => VNull end) (state_of m)
+                           | Fail e m => Err e (state_of m)
+                           | Panic s => OPanic s
+                           | OutOfFuel => OOutOfFuel
+                           | Unsupported s => OUnsupported s
+                           end) by (intros; reflexivity).
+  destruct (dstmt cfg fuel p env) as [v env1|e1|e1|c env1| |w]; try exact Logic.I.
+  - destruct H as [h1 [j1 [junk [[n Hst] [Hh1 [Hs1 [Hl Hv]]]]]]].
+    assert (Hhalt : nth_error prog (Z.to_nat (0 + zlen (compile_stmt 0 0 0 p))) = Some (I OpHalt ONil)).
+    { unfold prog, compile. rewrite Z.add_0_l. apply nth_error_mid. }
+    pose proof (leaves_le_sneed p) as Hls. pose proof (zlen_nonneg _ (compile_stmt 0 0 0 p)) as Hnn.
+    assert (Hne : zlen (junk ++ []) <> stack_size) by (rewrite zlen_app, zlen_nil; unfold stack_size; lia).
+    exists (n + 1)%nat. eexists. rewrite Hrun, (Hst 0%nat).
+    assert (Hpc : 0 <= 0 + zlen (compile_stmt 0 0 0 p)) by lia.
+    rewrite (exec_S E Hlim prog [] wod0 dc0 (Some src) (vs_pcg st) [] (vs_attrs st) 0%nat _ _ _ _ _ _ Hpc Hhalt Hne).
+    cbn [step i_op]. split; [|split; [|split; [|split]]].
+    + f_equal. cbn [M m_fr fr_live]. destruct v as [x|].
+      * destruct Hv as [_ [junk' ->]]. reflexivity.
+      * destruct Hv as [-> _]. reflexivity.
+    + unfold vars_of_state, state_of. cbn [M m_w w_heap w_self w_chain hd c_attrs vs_attrs vs_heap]. exact Hh1.
+    + reflexivity.
+    + destruct v as [x|]; [exact (proj1 Hv)|exact Logic.I].
+    + exact Hs1.
+  - destruct H as [n Hf]. destruct (Hf 0%nat) as [m' [Hm Hv]].
+    exists (n + 2)%nat, (state_of m'). rewrite Hrun, Hm. split; [reflexivity|]. exact Hv.
+Qed.
+
+(* ------------------------------------------------------------------ per-operator rules, proved of the VM model *)
+Section OpSpecs.
+  Variable E : env.
+  Variable r : nat.
+  Variable w : world.
+
+  (* + : ints wrap to int64, strings are joined, int + string is a type error *)
+  Lemma op_add_spec :
+    (forall a b, bin_op r E OpAdd (VInt a) (VInt b) w = ROk (VInt (wrap64 (a + b))) w) /\
+    (forall a b, bin_op r E OpAdd (VStr a) (VStr b) w = ROk (VStr (a ++ b)) w) /\
+    (forall a b, bin_op r E OpAdd (VInt a) (VStr b) w = RFail EType w) /\
+    (forall a b, bin_op r E OpAdd (VStr a) (VInt b) w = RFail EType w).
+  Proof. repeat split; reflexivity. Qed.
+
+  (* / : truncating division; by zero an error, or the left operand under IgnoreDiv0 *)
+  Lemma op_div_spec : forall a b,
+    bin_op r E OpDiv (VInt a) (VInt b) w =
+    if b =? 0 then (if cfg_ignore_div0 (e_cfg E) then ROk (VInt a) w else RFail EDiv0 w)
+    else ROk (VInt (wrap64 (Z.quot a b))) w.
+  Proof. intros; cbn. destruct (b =? 0); reflexivity. Qed.
+
+  Definition is_int (v : value) : bool := match v with VInt _ => true | _ => false end.
+  (* < <= >= > : ints only *)
+  Lemma compare_spec :
+    (forall a b, bin_op r E OpLt (VInt a) (VInt b) w = ROk (vbool (a <? b)) w) /\
+    (forall a b, bin_op r E OpLe (VInt a) (VInt b) w = ROk (vbool (a <=? b)) w) /\
+    (forall a b, bin_op r E OpGe (VInt a) (VInt b) w = ROk (vbool (b <=? a)) w) /\
+    (forall a b, bin_op r E OpGt (VInt a) (VInt b) w = ROk (vbool (b <? a)) w) /\
+    (forall op v1 v2, In op [OpLt; OpLe; OpGe; OpGt] -> is_int v1 && is_int v2 = false -> bin_op r E op v1 v2 w = RFail EType w).
+  Proof.
+    repeat split; try reflexivity.
+    intros op v1 v2 Hop Hty. cbn [In] in Hop.
+    destruct Hop as [<-|[<-|[<-|[<-|[]]]]]; destruct v1, v2; cbn in *; try discriminate; reflexivity.
+  Qed.
+
+  (* truthiness *)
+  Lemma truthy_spec : forall fn h,
+    (forall z, as_bool fn h (VInt z) = negb (z =? 0)) /\
+    (forall s, as_bool fn h (VStr s) = negb (String.eqb s "")) /\
+    as_bool fn h VNull = false /\
+    (forall id, as_bool fn h (VArr id) = negb (Nat.eqb (length (get_arr id h)) 0)).
+  Proof. intros; repeat split; try reflexivity. intros id; cbn. destruct (get_arr id h); reflexivity. Qed.
+End OpSpecs.
+
+(* ------------------------------------------------------------------ the full statement *)
+(* the denotational value and the VM value denote the same thing (arrays through the heap) *)
+Inductive vrel (h : heap) : dv -> value -> Prop :=
+| vr_int : forall z, vrel h (DvInt z) (VInt z)
+| vr_str : forall s, vrel h (DvStr s) (VStr s)
+| vr_null : vrel h DvNull VNull
+| vr_arr : forall l id, Forall2 (vrel h) l (get_arr id h) -> vrel h (DvArr l) (VArr id).
+Definition env_rel (h : heap) (env : denv) (m : vmap) : Prop :=
+  forall x, match dget x env, mget x m with
+            | Some a, Some b => vrel h a b
+            | None, None => True
+            | _, _ => False
+            end.
+
+(* static well-formedness: break / continue inside loops only, no variable named like a builtin function,
+   and a size / nesting bound that keeps every loop-free run inside the VM's capacity *)
+Fixpoint e_names_ok (e : expr) : bool :=
+  match e with
+  | EVar x => negb (mem_s x builtin_names)
+  | EAssign _ a | EUn _ a => e_names_ok a
+  | EBin _ a b | EOr a b | EIdx a b | ERoll a b => e_names_ok a && e_names_ok b
+  | ETern a b c => e_names_ok a && e_names_ok b && e_names_ok c
+  | EArr l => (fix go (l : list expr) : bool := match l with [] => true | x :: r => e_names_ok x && go r end) l
+  | _ => true
+  end.
+Fixpoint s_names_ok (s : stmt) : bool :=
+  match s with
+  | SExpr e => e_names_ok e
+  | SSeq a b => s_names_ok a && s_names_ok b
+  | SIf c t e => e_names_ok c && s_names_ok t && s_names_ok e
+  | SWhile c b => e_names_ok c && s_names_ok b
+  | _ => true
+  end.
+Fixpoint e_nodes (e : expr) : Z :=
+  match e with
+  | EAssign _ a | EUn _ a => 1 + e_nodes a
+  | EBin _ a b | EOr a b | EIdx a b | ERoll a b => 1 + e_nodes a + e_nodes b
+  | ETern a b c => 1 + e_nodes a + e_nodes b + e_nodes c
+  | EArr l => 1 + (fix go (l : list expr) : Z := match l with [] => 0 | x :: r => e_nodes x + go r end) l
+  | _ => 1
+  end.
+Fixpoint s_nodes (s : stmt) : Z :=
+  match s with
+  | SExpr e => e_nodes e
+  | SSeq a b => s_nodes a + s_nodes b
+  | SIf c t e => 1 + e_nodes c + s_nodes t + s_nodes e
+  | SWhile c b => 1 + e_nodes c + s_nodes b
+  | _ => 1
+  end.
+Fixpoint s_nest (s : stmt) : Z :=
+  match s with
+  | SSeq a b => Z.max (s_nest a) (s_nest b)
+  | SIf _ t e => 1 + Z.max (s_nest t) (s_nest e)
+  | SWhile _ b => 1 + s_nest b
+  | _ => 0
+  end.
+Definition wf_prog (p : stmt) : bool :=
+  loops_ok false p && s_names_ok p && (s_nodes p <=? 400) && (s_nest p <=? 19).
+
+(* For EVERY well-formed program of the fragment of Model/Ast.v (all constructors: arrays, indexing, dice terms,
+   while / break / continue included): a value of the definition is the value of the compiled program on the VM
+   (and no amount of fuel makes the VM answer anything else than that value), an error of the definition is an
+   error of the same class, with the same variables afterwards. *)
+Definition compile_correct_statement : Prop :=
+  forall p cfg ftab fuel env src st,
+    wf_prog p = true -> cfg_op_limit cfg = 0 -> env_rel (vs_heap st) env (vars_of_state st) ->
+    match denote fuel cfg p env with
+    | DVal v env' =>
+      (exists fuel' st' v', run fuel' {| e_ftab := ftab; e_cfg := cfg |} (compile p) src st = Val v' st'
+                            /\ vrel (vs_heap st') v v' /\ env_rel (vs_heap st') env' (vars_of_state st'))
+      /\ (forall fuel', match run fuel' {| e_ftab := ftab; e_cfg := cfg |} (compile p) src st with
+                        | Val _ _ | OOutOfFuel => True
+                        | _ => False
+                        end)
+    | DErr c env' =>
+      exists fuel' st', run fuel' {| e_ftab := ftab; e_cfg := cfg |} (compile p) src st = Err c st'
+                        /\ env_rel (vs_heap st') env' (vars_of_state st')
+    | _ => True
+    end.
+
+(* the recorded defect while-body-stack-leak refutes it: `i=0; while i<2000 {i=i+1}; i` *)
+Definition leak_witness : stmt :=
+  SSeq (SExpr (EAssign "i" (EInt 0)))
+       (SSeq (SWhile (EBin BLt (EVar "i") (EInt 2000)) (SExpr (EAssign "i" (EBin BAdd (EVar "i") (EInt 1)))))
+             (SExpr (EVar "i"))).
+Definition cfg0 : config :=
+  {| cfg_ignore_div0 := false; cfg_min_mode := false; cfg_max_mode := false; cfg_op_limit := 0;
+     cfg_def_expr_empty := true; cfg_st_callback := false |}.
+
+Lemma leak_witness_denote : denote 2001 cfg0 leak_witness [] = DVal (DvInt 2000) [("i"%string, DvInt 2000)].
+Proof. vm_compute. reflexivity. Qed.
+Lemma leak_witness_run :
+  exists st', run 20000 {| e_ftab := []; e_cfg := cfg0 |} (compile leak_witness) "" (init_vmstate {| hi := 1; lo := 2 |}) = Err EStack st'.
+Proof. eexists. vm_compute. reflexivity. Qed.
+
+Theorem compile_correct_statement_refuted : ~ compile_correct_statement.
+Proof.
+  intros H.
+  specialize (H leak_witness cfg0 [] 2001%nat [] ""%string (init_vmstate {| hi := 1; lo := 2 |}) eq_refl eq_refl).
+  assert (Henv : env_rel (vs_heap (init_vmstate {| hi := 1; lo := 2 |})) [] (vars_of_state (init_vmstate {| hi := 1; lo := 2 |}))).
+  { intros x. vm_compute. exact Logic.I. }
+  specialize (H Henv). rewrite leak_witness_denote in H. destruct H as [_ H].
+  specialize (H 20000%nat). destruct leak_witness_run as [st' Hr]. rewrite Hr in H. exact H.
+Qed.
+
+(* ------------------------------------------------------------------ non-vacuity *)
+(* a program with a loop, break and continue: the definition and compile + VM give the same value and variables *)
+Definition example_prog : stmt :=
+  SSeq (SExpr (EAssign "x" (EInt 0)))
+  (SSeq (SExpr (EAssign "i" (EInt 0)))
+  (SSeq (SWhile (EBin BLt (EVar "i") (EInt 10))
+          (SSeq (SExpr (EAssign "i" (EBin BAdd (EVar "i") (EInt 1))))
+          (SSeq (SIf (EBin BEq (EBin BMod (EVar "i") (EInt 2)) (EInt 0)) SContinue SNop)
+          (SSeq (SIf (EBin BGt (EVar "i") (EInt 7)) SBreak SNop)
+                (SExpr (EAssign "x" (EBin BAdd (EVar "x") (EVar "i"))))))))
+        (SExpr (EOr (EBin BAnd (EVar "x") (EStr "")) (ETern (EVar "x") (EBin BMul (EVar "x") (EInt 2)) ENull))))).
+
+Example example_loop_agrees :
+  denote 100 cfg0 example_prog [] = DVal (DvInt 32) [("x"%string, DvInt 16); ("i"%string, DvInt 9)]
+  /\ exists st', run 2000 {| e_ftab := []; e_cfg := cfg0 |} (compile example_prog) "" (init_vmstate {| hi := 1; lo := 2 |}) = Val (VInt 32) st'
+                 /\ vars_of_state st' = inj_env [("x"%string, DvInt 16); ("i"%string, DvInt 9)].
+Proof. split; [vm_compute; reflexivity|]. eexists. split; vm_compute; reflexivity. Qed.
+
+(* the proved theorem is not vacuous: a loop-free program satisfies its hypotheses and evaluates to a value *)
+Definition example_core : stmt :=
+  SSeq (SExpr (EAssign "x" (EBin BSub (EInt 3) (EInt 5))))
+       (SSeq (SIf (EBin BLt (EVar "x") (EInt 0)) (SExpr (EAssign "y" (EUn UNeg (EVar "x")))) (SExpr (EAssign "y" (EVar "x"))))
+             (SExpr (EOr (EBin BAnd (EVar "y") ENull) (ETern (EVar "y") (EBin BAdd (EStr "a") (EStr "b")) (EInt 1))))).
+Example example_core_ok :
+  core_stmt example_core /\ sneed example_core <= 999 /\ bneed example_core <= 20 /\
+  denote 0 cfg0 example_core [] = DVal (DvStr "ab") [("x"%string, DvInt (-2)); ("y"%string, DvInt 2)].
+Proof. repeat split; vm_compute; try reflexivity; discriminate. Qed.
+Example example_core_error :
+  denote 0 cfg0 (SSeq (SExpr (EAssign "x" (EInt 1))) (SExpr (EBin BDiv (EVar "x") (EBin BSub (EVar "x") (EVar "x"))))) []
+  = DErr EDiv0 [("x"%string, DvInt 1)].
+Proof. vm_compute. reflexivity. Qed.
